@@ -208,13 +208,16 @@ class SwallowAddon:
         return None
 
 
+ID_BASE = [1]   # set by Harness.fresh() before a World is built (workers are single-threaded)
+
+
 class RegionModel:
     """Reference model of one region's event queue."""
 
-    def __init__(self):
+    def __init__(self, id_base: int = 1):
         self.ack: Optional[int] = None
         self.prev: Optional[Dict[str, Any]] = None     # {"ack":..., "body": normalised body or None} of the preceding poll
-        self.next_id = 1
+        self.next_id = id_base                         # first response id the simulator uses (real ones are large 32-bit values)
         self.pending: List[Tuple[int, str]] = []       # (tag, kind) injected and not yet delivered
         self.optional: List[Tuple[int, str]] = []      # dropped by a teardown: may never show up twice, need not show up
         self.inj_since_poll = 0
@@ -249,7 +252,7 @@ class World:
             region.update_caps({"EventQueueGet": url})
         self.region = self.eq_regions[0]
         self.m = Model(n_regions)
-        self.rm = [RegionModel() for _ in self.eq_regions]
+        self.rm = [RegionModel(ID_BASE[0]) for _ in self.eq_regions]
         self.violations: List[Dict[str, Any]] = []
         self.last_obs: Any = None
         self.flags: set = set()
@@ -284,7 +287,8 @@ class Harness:
                  inject: Tuple[str, ...] = ("ev", "msg"), teardown: bool = True, rep: bool = True, lost: bool = True,
                  label: str = "", n_regions: int = 1, swallows: Tuple[str, ...] = ("none", "first", "all"),
                  midtd: Optional[bool] = None, midtd_sw: Tuple[str, ...] = ("all",),
-                 midtd_sims: Optional[Tuple[str, ...]] = None, regrant: bool = False, n_sessions: int = 1):
+                 midtd_sims: Optional[Tuple[str, ...]] = None, regrant: bool = False, n_sessions: int = 1, id_base: int = 1):
+        self.id_base = id_base      # the simulator's first response id; 1 | far outside CPython's small-int cache | negative
         self.sims, self.statuses, self.undef = tuple(sims), tuple(statuses), undef
         self.inject, self.teardown, self.rep, self.lost = tuple(inject), teardown, rep, lost
         self.label, self.n_regions, self.swallows = label, n_regions, tuple(swallows)
@@ -301,6 +305,7 @@ class Harness:
 
     # ------------------------------------------------------------------------------------------ explorer API
     def fresh(self) -> World:
+        ID_BASE[0] = self.id_base
         return World(self.n_regions, self.n_sessions)
 
     def deviation(self, ev) -> int:
@@ -677,6 +682,8 @@ def searches(tier: str):
                      inject=(), teardown=False, midtd=True, midtd_sw=("none",), midtd_sims=ANN1, label="regions "), 3, 2),
             (Harness(("p", "eac"), n_regions=2, label="multi-region ", **multi), 4, 1),
             (Harness(("p",), n_regions=1, n_sessions=2, label="two-sessions ", **dict(multi, regrant=False)), 4, 1),
+            (Harness(("p", "pt"), statuses=("502",), inject=("ev",), midtd=False, id_base=1_000_000, label="large-ids "), 4, 3),
+            (Harness(("p",), statuses=(), inject=("ev",), teardown=False, midtd=False, id_base=-2_000_000_000, label="negative-ids "), 4, 3),
         ]
     return [
         (Harness(("p", "t", "pt"), midtd_sims=("p",), label="delivery "), 6, 3),
@@ -685,6 +692,8 @@ def searches(tier: str):
         (Harness(("p", "eac"), n_regions=2, label="multi-region ", **multi), 5, 2),
         (Harness(("p", "eac"), n_regions=3, label="multi-region(3) ", **multi), 4, 1),
         (Harness(("p",), n_regions=1, n_sessions=2, label="two-sessions ", **dict(multi, regrant=False)), 5, 2),
+        (Harness(("p", "t", "pt"), midtd_sims=("p",), id_base=1_000_000, label="large-ids "), 5, 3),
+        (Harness(("p", "pt"), statuses=("502",), inject=("ev",), midtd=False, id_base=-2_000_000_000, label="negative-ids "), 5, 3),
     ]
 
 
